@@ -73,7 +73,12 @@ def parseCommit (d : DSt) (s : String) : Option Incoming :=
       else if var == "short" then some ⟨false, b, h, v, .garbage⟩
       else match kv var "sigby" with
         | some w => w.toNat?.map (fun w => ⟨true, b, h, v, sign (holderKey d w) own⟩)
-        | none => none
+        | none =>
+          match kv var "relabel" with
+          | some h2 => h2.toNat?.map (fun h2 =>
+              if h2 ≤ d.tip then ⟨true, d.ownId h2, h, v, sign k ⟨1, d.ownId h2⟩⟩
+              else ⟨true, foreignId h, h, v, sign k own⟩)
+          | none => none
     | _, _ => none
   | _ => none
 
